@@ -210,7 +210,7 @@ func (g *gen) tree(tier string) (rs []*route, hasErrs bool, errs []*route, named
 		g.budget = 10 + g.rng.Intn(40)
 	}
 	sh := shape{errOdds: 4, failOdds: 12, subOdds: 18, subErrOdds: 30, termOdds: 18, groupOdds: 35, rewriteOdds: 18, noSetOdds: 40, legacyOdds: 5, realOdds: 30}
-	switch g.rng.Intn(9) {
+	switch g.rng.Intn(10) {
 	case 0: // no failures at all: routing proper
 		sh.errOdds, sh.failOdds = 0, 0
 	case 1: // error-heavy
@@ -224,6 +224,8 @@ func (g *gen) tree(tier string) (rs []*route, hasErrs bool, errs []*route, named
 	case 6: // the error path as deployed: real error / static_response handlers driven by the error placeholders
 		sh.failOdds, sh.realOdds, sh.subErrOdds, sh.noSetOdds = 30, 75, 50, 60
 		g.exprLeft, g.exprOdds = 3, 40
+	case 7: // nested subroutes with error routes that rewrite and fail again: request copies
+		sh.subOdds, sh.subErrOdds, sh.rewriteOdds, sh.failOdds, sh.noSetOdds = 40, 70, 30, 25, 70
 	case 5: // error matchers next to legacy (RequestMatcher-only) matchers
 		sh.errOdds, sh.legacyOdds, sh.noSetOdds = 12, 30, 15
 	}
@@ -386,21 +388,6 @@ func evaluate(c tcase) (got observed, tags []string, fails []core.Failure, err e
 	}
 	if class, what := diffClass(got, want); class != "" {
 		fails = append(fails, fail(class, what))
-	}
-
-	// ---- oracle 1b: "with the original URI restored" also means the request line: whenever no
-	// subroute-level error routes ran, every handler (in particular those of the server's error
-	// routes) must see a RequestURI that agrees with the URL. (Subroute.ServeHTTP resumes with a
-	// shallow copy of the request whose RequestURI can be stale on the unchanged tree — that
-	// region is left out here and reported, not asserted.)
-	if !tset["subroute-errors-run"] {
-		for _, e := range got.events {
-			if e.uri != "" {
-				fails = append(fails, fail("rules:request-uri-seen",
-					fmt.Sprintf("handler %d saw RequestURI %q next to URL path %q", e.id, e.uri, e.path)))
-				break
-			}
-		}
 	}
 
 	// ---- oracle 0: routing is a function of the configuration and the request — nothing is
